@@ -312,7 +312,11 @@ def _reply_filter(ctx: Context) -> None:
         # (a truncated unwanted item has nothing behind it); whether that arithmetic is right is C15's business
         length_edges = []
         for tn in cfg.nodes:
-            if tn.kind == "test" and any(isinstance(x, ast.Call) and isinstance(x.func, ast.Name) and x.func.id == "len" for x in walk_expr(tn.exprs[0])):
+            if tn.kind != "test":
+                continue
+            # by value: `end = len(data)` held in a local is the same test
+            if any(isinstance(x, ast.Call) and isinstance(x.func, ast.Name) and x.func.id == "len" for x in walk_expr(tn.exprs[0])) or contains(
+                    ctx.terms.of(cfg, tn, tn.exprs[0]), lambda s_: s_[0] == "call" and s_[1] == ("glob", "len")):
                 length_edges += cfg.out_edges(tn, ("T", "F"))
         bad = None
         back = False
@@ -406,6 +410,18 @@ def _decision_table(ctx: Context) -> None:
                     break
                 cur = nxt[0]
                 continue
+            if n.kind == "stmt" and type(n.ast) is ast.Assign and len(n.ast.targets) == 1:
+                # one row of a table loop the loader spelled out: `code, exc = (K, SomeError)`  (or `x = K`)
+                tg = n.ast.targets[0]
+                names = [tg] if isinstance(tg, ast.Name) else list(tg.elts) if isinstance(tg, (ast.Tuple, ast.List)) else []
+                cells = _row_cells(ctx, cfg.func.module, n.ast.value if len(names) > 1 else ast.Tuple(elts=[n.ast.value], ctx=ast.Load()))
+                if names and all(isinstance(x, ast.Name) for x in names):
+                    if cells is not None and len(cells) == len(names):
+                        for x, v in zip(names, cells):
+                            env[x.id] = v
+                    else:
+                        for x in names:
+                            env.pop(x.id, None)
             nxt = [d for (d, l, _e) in n.succ if l in ("n",)]
             if len(nxt) != 1:
                 result = None
@@ -467,20 +483,28 @@ def _table_rows(ctx: Context, f, it: ast.AST):
     m = ctx.prog.modules[parts[0]]
     rows = []
     for row in lits[0].elts:
-        cells = []
-        for cell in (row.elts if isinstance(row, (ast.Tuple, ast.List)) else [row]):
-            dd = dotted(cell)
-            rr = ctx.prog.resolve_dotted(m, dd) if dd else None
-            if rr and (rr in ctx.prog.classes or ctx.prog.known_class(rr)):
-                cells.append(("cls", rr))
-                continue
-            try:
-                c = ctx.prog.eval_const(cell, m, None)
-            except Exception:  # noqa: BLE001
-                return None
-            cells.append(("c", bytes(c) if isinstance(c, bytearray) else c))
-        rows.append(tuple(cells))
+        cells = _row_cells(ctx, m, row)
+        if cells is None:
+            return None
+        rows.append(cells)
     return rows
+
+
+def _row_cells(ctx: Context, m, row: ast.AST):
+    """One table row as a tuple of ('c', constant) / ('cls', qualname) cells, or None."""
+    cells = []
+    for cell in (row.elts if isinstance(row, (ast.Tuple, ast.List)) else [row]):
+        dd = dotted(cell)
+        rr = ctx.prog.resolve_dotted(m, dd) if dd else None
+        if rr and (rr in ctx.prog.classes or ctx.prog.known_class(rr)):
+            cells.append(("cls", rr))
+            continue
+        try:
+            c = ctx.prog.eval_const(cell, m, None)
+        except Exception:  # noqa: BLE001
+            return None
+        cells.append(("c", bytes(c) if isinstance(c, bytearray) else c))
+    return tuple(cells)
 
 
 def _eval_test(ctx: Context, cfg, n, pname: str, val: bytes, env=None):
@@ -649,6 +673,9 @@ def _step_checks(ctx: Context, q: str, steps: list[int]) -> int:
                                 and a.value.args[0] is sub
                             ):
                                 continue
+                            # a plain copy of the name into another local (a helper's parameter) reads nothing of the reply
+                            if type(a) is ast.Assign and a.value is sub and all(isinstance(t_, ast.Name) for t_ in a.targets):
+                                continue
                             early.append(n)
         if gate_nodes:
             ck.check(
@@ -681,6 +708,10 @@ def _pairing_mgmt(ctx: Context, q: str) -> int:
             continue
         op, (l, r) = t[1][0], t[2]
         m2 = ("const", M[2])
+        # `State not in reply` [absent]: a reply without a state item is tolerated, exactly as `.get(State, M2)` tolerates it
+        if op in ("In", "NotIn") and l == ("const", TLV_STATE):
+            pass_edges += ctx.edges(cfg, n, "T" if op == "NotIn" else "F")
+            continue
         if op in ("NotEq", "Eq") and ((is_state_get(l, M[2]) and r == m2) or (is_state_get(r, M[2]) and l == m2)):
             pass_edges += ctx.edges(cfg, n, "F" if op == "NotEq" else "T")
             fail_edges += ctx.edges(cfg, n, "T" if op == "NotEq" else "F")
